@@ -3,7 +3,23 @@
      (7 op ty (n0 n1) rows cols (x ...) (pr pc))
         op 1 = determinant, 2 = inverse, 3 = determinant + inverse presence at element type f64 ;
         ty 0 = Rat, 1 = Fp, 2 = Wrapping<i64> (a ring that is not a field: entries are integers),
-        3 = Trace<Rat> (dual numbers: entries are (number derivative), == compares numbers only) ;
+        3 = Trace<Rat> (dual numbers: entries are (number derivative), == compares numbers only),
+        4 = StrictRat (harness/src/c08/strict.rs: the values and encodings of Rat, but `/` PANICS
+        on a zero divisor): for tag 4 the model runs the DIVISION-INSTRUMENTED inverse
+        (Model/LinAlgDiv.v, strict_div) and predicts value / absence / panic; a panic of either
+        route is the whole result `(2)` (what the harness answers when an entry point panics);
+        by C07_inverse_never_divides_by_zero the model never predicts one ;
+        op 4 = op 3 on the entries scaled by 2^-k, k = the ty field, 0 <= k <= 60 (powers of two
+        scale exactly: the f64 determinant must be det(ints) * 2^(-k n), which the harness
+        reports as det(ints); the inverse must be present exactly when det(ints) <> 0, however
+        tiny the scaled determinant is) ;
+        op 5 = FLOAT tier: ty 0 = f64, 1 = f32, +2 = marked well-conditioned by the generator;
+        entries (m k) = m / 10^k evaluated in the float type, |m| <= 10^6, 0 <= k <= 200 (f64) /
+        30 (f32), sizes <= 6.  Result: (determinant-present) = (rows = cols).  Everything else is
+        checked inside the harness on rounding-independent observables: all entry points of a
+        route bit for bit; inverse of each route present exactly when the crate's own determinant
+        of the same input is `!= 0`; routes agree on presence; A X = I = X A within a tolerance
+        for the inputs marked well-conditioned ;
         op 3: ty = 0, entries are plain integers in -3..3, sizes <= 6 (every product and partial
         sum of the Leibniz formula is then an exactly representable integer, so the f64 result
         must be the exact integer determinant, in particular exactly 0.0 for a singular input) ;
@@ -15,7 +31,8 @@
         inverse:      (opt (rows cols (x ...)))  (opt (((n0 rows) (n1 cols)) (x ...)))
         op 3:         ((opt integer-determinant) inverse-present) *)
 From Coq Require Import List ZArith NArith QArith Bool.
-From EasyML Require Import Base.Sx Model.Num Model.Numeric Model.TraceNum Model.Perms Model.LinAlg.
+From EasyML Require Import Base.Sx Model.Num Model.Numeric Model.TraceNum Model.Perms Model.LinAlg
+  Model.DivOutcome Model.LinAlgDiv.
 Import ListNotations.
 
 Fixpoint chunk {A} (rows cols : nat) (l : list A) : list (list A) :=
@@ -35,6 +52,21 @@ Definition c07_run {R} (ops : numops R) (op : Z) (names : nat * nat) (m : mat (R
   | 2%Z => SL [sopt enc_m (inverse_matrix ops m);
                sopt enc_t (inverse_tensor2 ops (mkT2 names m))]
   | _ => bad_case
+  end.
+
+(* tag 4: the instrumented inverse with the strict division; the determinant has no division *)
+Definition c07_run_strict {R} (ops : numops R) (op : Z) (names : nat * nat) (m : mat (R := R)) : sx :=
+  let enc_m := fun x : mat => SL [snat (mrows x); snat (mcols x); slist (nenc ops) (concat x)] in
+  let enc_t := fun t : tensor2 =>
+    SL [slist (fun p => SL [snat (fst p); snat (snd p)]) (t2_shape t);
+        slist (nenc ops) (concat (t2_mat t))] in
+  match op with
+  | 2%Z => match inverse_matrix_i ops (strict_div ops) m,
+                 inverse_tensor2_i ops (strict_div ops) (mkT2 names m) with
+           | Ok im, Ok it => SL [sopt enc_m im; sopt enc_t it]
+           | _, _ => SL [SZ 2%Z]
+           end
+  | _ => c07_run ops op names m
   end.
 
 (* element-type tags of C07 *)
@@ -64,6 +96,34 @@ Definition run_c07 (args : list sx) : sx :=
             match ty, dlist dZ data with
             | 0%Z, Some d => if Nat.eqb (length d) (rows * cols) then c07_float rows cols d else bad_case
             | _, _ => bad_case
+            end
+          else if Z.eqb op 5 then
+            (* float tier: only the presence of the determinant is predicted *)
+            let kmax := if Z.odd ty then 30%Z else 200%Z in
+            match data with
+            | SL l =>
+                if (0 <=? ty)%Z && (ty <=? 3)%Z && Nat.leb rows 6 && Nat.leb cols 6
+                   && Nat.eqb (length l) (rows * cols)
+                   && forallb (fun e => match e with
+                                        | SL [SZ m; SZ k] =>
+                                            (Z.abs m <=? 1000000)%Z && (0 <=? k)%Z && (k <=? kmax)%Z
+                                        | _ => false
+                                        end) l
+                then SL [sbool (Nat.eqb rows cols)] else bad_case
+            | _ => bad_case
+            end
+          else if Z.eqb op 4 then
+            (* entries m * 2^-k, k = ty in 0..60: the answer does not depend on k *)
+            match dlist dZ data with
+            | Some d => if (0 <=? ty)%Z && (ty <=? 60)%Z && Nat.eqb (length d) (rows * cols)
+                        then c07_float rows cols d else bad_case
+            | None => bad_case
+            end
+          else if Z.eqb ty 4 then
+            match dlist (ndec Qops) data with
+            | Some d => if Nat.eqb (length d) (rows * cols)
+                        then c07_run_strict Qops op names (chunk rows cols d) else bad_case
+            | None => bad_case
             end
           else
           with_ty_c07 ty (fun R ops =>
